@@ -388,6 +388,15 @@ impl Transaction for SecondaryTransaction {
         if !known {
             return Err(TracedStorageError::not_found("rowset", id.rowset_id()));
         }
+        // Likewise a concurrent DELETE may have removed the row in between: deleting it again
+        // would count a row that this transaction does not remove.
+        let table_id = self.table.table_id();
+        let deleted = (self.snapshot.get_dvs_of(table_id, id.rowset_id())).is_some_and(|dvs| {
+            (dvs.iter()).any(|dv| self.version.get_dv(table_id, *dv).contains(id.row_id()))
+        });
+        if deleted {
+            return Err(TracedStorageError::not_found("row", id.row_id()));
+        }
         self.delete_buffer.push(*id);
         Ok(())
     }
